@@ -5,7 +5,7 @@
    (mfnd_spec_statement, proved in C03_Proofs.v), the result of extend_filtration is the cone filtration: the
    original simplices carry the encoded lower-star value, the coned simplices the encoded upper-star value, the
    cone point -3; (5) decoding the stored values gives back the lower-star / upper-star values. *)
-From Coq Require Import ZArith QArith List Bool Sorted Permutation Lia Lra.
+From Coq Require Import ZArith QArith List Bool Sorted Permutation Lia.
 From Coq Require Import Lqa.
 Require Import C03_Model C03_Defs.
 Import ListNotations.
